@@ -106,7 +106,7 @@ def u1_layouts(src, assignor, max_members, ntopics, max_parts):
                 A.check_balance(src, "sticky", parts, s3, r3, tag="stale re-join: ")
 
 
-def u2_sticky_userdata(src, parts, full):
+def u2_sticky_userdata(src, parts, full, any_topic=False):
     """sticky with arbitrary previous-assignment user data of two generations: members m0, m1 report
     generation-2 ownership of any partitions of their subscribed topics, m2 re-joins with stale
     generation-1 claims that may conflict with them; the result must still be valid and KIP-54 balanced"""
@@ -117,12 +117,13 @@ def u2_sticky_userdata(src, parts, full):
     prev = {"m0": [], "m1": [], "m2": []}
     for t in topics:
         for p in range(parts[t]):
-            cands = [None] + [m for m in ("m0", "m1") if t in subs[m]]
+            # any_topic: a member may have changed its subscription; its user data still names what it owned before
+            cands = [None] + [m for m in ("m0", "m1") if any_topic or t in subs[m]]
             o = cands[src.choice(f"owner_{t}{p}", len(cands))]
             if o is not None:
                 prev[o].append((t, p))
     for t in topics:
-        if t not in subs["m2"]:
+        if t not in subs["m2"] and not any_topic:
             continue
         if full:
             for p in range(parts[t]):
@@ -138,15 +139,16 @@ def u2_sticky_userdata(src, parts, full):
 
 def harnesses(tier):
     q = tier == "quick"
-    hs = [Harness(name=f"U2_sticky_userdata_{'x'.join(str(v) for v in parts.values())}{'_full' if full else ''}", fn=u2_sticky_userdata,
-                  params={"parts": parts, "full": full},
+    hs = [Harness(name=f"U2_sticky_userdata_{'x'.join(str(v) for v in parts.values())}{'_full' if full else ''}{'_dropped_topics' if anyt else ''}", fn=u2_sticky_userdata,
+                  params={"parts": parts, "full": full, "any_topic": anyt},
                   functions=[StickyPartitionAssignor.assign, StickyAssignmentExecutor._init_current_assignments,
                              StickyAssignmentExecutor.balance, StickyAssignmentExecutor._perform_reassignments],
                   shape="U",
                   symbolic_vars="finite-domain choices: subscription of each of 3 members, generation-2 owner of every partition (m0/m1/none), stale generation-1 claims of m2",
                   bounds={"partitions": parts, "members": 3}, note="exhaustive enumeration by the engine's DFS",
                   max_seconds=600 if q else 3000, max_paths=5000000, twin_max_paths=5000)
-          for parts, full in ([({"ta": 3, "tb": 2}, False)] if q else [({"ta": 3, "tb": 2}, True), ({"ta": 2, "tb": 2, "tc": 1}, False)])]
+          for parts, full, anyt in ([({"ta": 3, "tb": 2}, False, False), ({"ta": 3, "tb": 2}, False, True)] if q else
+                                    [({"ta": 3, "tb": 2}, True, False), ({"ta": 2, "tb": 2, "tc": 1}, False, False), ({"ta": 3, "tb": 2}, True, True)])]
     for n in ([1, 2, 3, 4] if q else [1, 2, 3, 4, 5, 6, 7]):
         hs.append(Harness(name=f"K1_range_arithmetic_{n}members", fn=k1_range_arithmetic, params={"nmembers": n},
                           functions=[RangePartitionAssignor.assign], shape="K",
